@@ -729,6 +729,37 @@ func checkC43(c *Ctx, r *Report) {
 	}
 	r.rule("C43.R1", "who-may-delete groupState.members, each under its guard", 3)
 	r.rule("C43.R2", "every removal is reported by the sweep helpers, and in cleanupGroups a reported removal is followed by startRebalance or group deletion before the next group", 3)
+	r.rule("C43.R4", "the expiry sweep examines every member on every call: each return of removeExpiredMembers lies behind the range over groupState.members (no shortcut decides from a remembered deadline)", 1)
+	if re := needFn(m, r, "C43.R4", pkgBrokerLib, "(*groupState).removeExpiredMembers"); re != nil {
+		var rng ssa.Instruction
+		for _, b := range re.Blocks {
+			for _, in := range b.Instrs {
+				if x, ok := in.(*ssa.Range); ok {
+					if _, f, _, okf := fieldOf(x.X); okf && f == "members" {
+						rng = x
+					}
+				}
+			}
+		}
+		if rng == nil {
+			r.unresolved("C43.R4", "removeExpiredMembers scan", "no range over groupState.members")
+		} else {
+			n := 0
+			for _, b := range re.Blocks {
+				ret, ok := b.Instrs[len(b.Instrs)-1].(*ssa.Return)
+				if !ok {
+					continue
+				}
+				n++
+				key := fmt.Sprintf("removeExpiredMembers return #%d comes after the scan of all members", n)
+				if ok, path := mustPassBefore(m, re, ret, func(in ssa.Instruction) bool { return in == rng }); ok {
+					r.ok("C43.R4", key, m.Pos(ret.Pos()), "")
+				} else {
+					r.viol("C43.R4", key, m.Pos(ret.Pos()), "the sweep can return without looking at the members: "+path+" — a member whose session lapsed in the meantime stays in the group and no rebalance starts")
+				}
+			}
+		}
+	}
 	r.rule("C43.R3", "lastHeartbeat refreshed before every NONE heartbeat reply and on every JoinGroup", 2)
 
 	dels := map[string][]ssa.Instruction{}
